@@ -2,6 +2,7 @@ package rules
 
 import (
 	"fmt"
+	"sort"
 	"go/ast"
 	"go/token"
 	"go/types"
@@ -19,6 +20,7 @@ func C07(r *core.Report) {
 		"R3 in the slot-window iterator each bound (before, until) is compared with the fetched transaction's slot on every path to the append; R4 an address absent from an epoch (IsNotFound) continues with the next epoch instead of returning; " +
 		"R5 in the signature-window iterator the limit test and the reached-before test dominate the append, the append is not reachable in the iteration where the before-signature matched, and the until test comes after the append. " +
 		"R6 in every history reader with a limit the quantity compared with the limit on the way to an append is the size of the whole result (len of the appended slice or a Count() that sums len over the whole map), not of one per-epoch part. " +
+		"R7 the request parser stores the address of a distinct variable in each optional pointer field (before and until never alias one variable). " +
 		"Not decided: the arithmetic of limit across epochs and the result for concrete histories."
 	r.Assumptions = []string{"Go map iteration order is unspecified (language spec)"}
 	c07MapOrder(r)
@@ -27,12 +29,14 @@ func C07(r *core.Report) {
 	c07AbsentSkipped(r)
 	c07WindowShape(r)
 	c07LimitCountsWholeResult(r)
+	c07OptionPointersDistinct(r)
 	r.Floor("C07.R1", 3)
 	r.Floor("C07.R2", 4)
 	r.Floor("C07.R3", 2)
 	r.Floor("C07.R4", 2)
 	r.Floor("C07.R5", 4)
 	r.Floor("C07.R6", 4)
+	r.Floor("C07.R7", 1)
 }
 
 // mapRangeOrderSensitive inspects every range-over-map in f and returns, per range statement, the
@@ -699,4 +703,70 @@ func sumsLenOverReceiver(f *core.Func) bool {
 		return true
 	})
 	return ok
+}
+
+// c07OptionPointersDistinct (C07.R7): the request parser must give `before` and `until` (and every other optional
+// pointer field of the parsed parameters) storage of their own: the address of one local variable is never stored in
+// two different fields of the result, otherwise the two bounds of the window collapse into the value parsed last.
+func c07OptionPointersDistinct(r *core.Report) {
+	const rule = "C07.R7"
+	f := r.Anchor(rule, "main.parseGetSignaturesForAddressParams")
+	if f == nil {
+		return
+	}
+	info := f.Pkg.TypesInfo
+	type store struct {
+		field string
+		at    ast.Node
+	}
+	byVar := map[types.Object][]store{}
+	nPtr := 0
+	ast.Inspect(f.Body, func(n ast.Node) bool {
+		as, ok := n.(*ast.AssignStmt)
+		if !ok || len(as.Lhs) != len(as.Rhs) {
+			return true
+		}
+		for i, l := range as.Lhs {
+			sel, ok := core.Unparen(l).(*ast.SelectorExpr)
+			if !ok {
+				continue
+			}
+			if _, isPtr := info.TypeOf(l).(*types.Pointer); !isPtr {
+				continue
+			}
+			nPtr++
+			if u, ok := core.Unparen(as.Rhs[i]).(*ast.UnaryExpr); ok && u.Op == token.AND {
+				if o := core.ObjOf(info, u.X); o != nil {
+					byVar[o] = append(byVar[o], store{core.ExprStr(sel), as})
+				}
+			}
+		}
+		return true
+	})
+	if nPtr == 0 {
+		r.Undecided(rule, f.Key+"#pointer-fields", posP(r, f.Pos()), "no assignment to an optional pointer field found")
+		return
+	}
+	n := 0
+	for o, ss := range byVar {
+		fields := map[string]bool{}
+		for _, s := range ss {
+			fields[s.field] = true
+		}
+		n++
+		k := fmt.Sprintf("%s#address-of:%s@%s", f.Key, o.Name(), ss[0].field)
+		if len(fields) > 1 {
+			var names []string
+			for fn := range fields {
+				names = append(names, fn)
+			}
+			sort.Strings(names)
+			r.Violation(rule, k, pos(r, ss[len(ss)-1].at), "the address of one variable ("+o.Name()+") is stored in "+strings.Join(names, " and ")+": both options end up with the value parsed last, so the window [before, until] is wrong whenever both are given")
+		} else {
+			r.OK(rule, k, pos(r, ss[0].at), "the option field points to a variable of its own")
+		}
+	}
+	if n == 0 {
+		r.OK(rule, f.Key+"#no-address-of-locals", posP(r, f.Pos()), "no optional field points at a local variable")
+	}
 }
